@@ -17,8 +17,18 @@ TRUSTED = [
 
 
 class CaughtExc(object):
+    """the object bound by `except ... as e`"""
+
     def __init__(self, exc):
         self.exc = exc
+
+    def as_v_term(self):
+        p = self.exc.payload
+        if isinstance(p, SCell):
+            return p.t
+        if not hasattr(self, '_v'):
+            self._v = smt.fresh_v('exc_' + self.exc.kind)
+        return self._v
 
 
 class ExternalModule(object):
@@ -26,6 +36,13 @@ class ExternalModule(object):
         self.name = name
 
     def __repr__(self): return 'ExternalModule(%s)' % self.name
+
+
+class StarSeq(object):
+    """f(*seq) where seq has symbolic length"""
+
+    def __init__(self, seq):
+        self.seq = seq
 
 
 class Partial(object):
@@ -102,6 +119,8 @@ def get_iter(interp, v, node=None):
         f = v.cls.find('__iter__')
         if f:
             return get_iter(interp, interp.call(BoundMethod(f[0], v), [], {}), node)
+        if '_tuple' in v.attrs:
+            return get_iter(interp, v.attrs['_tuple'], node)
     if isinstance(v, RangeObj):
         if is_conc_int(v.lo) and is_conc_int(v.hi):
             return ListIter(list(range(v.lo, v.hi)))
@@ -146,6 +165,11 @@ def base_iter(it):
 class ZipIter(object):
     def __init__(self, inners, longest=False, fill=None):
         self.inners, self.longest, self.fill = inners, longest, fill
+        b = None
+        for i in inners:
+            if isinstance(i, SrcIter):
+                b = i
+        self.base, self.pos0 = b, (b.pos if b is not None else None)
 
 
 class CountIter(object):
@@ -195,8 +219,15 @@ def next_(interp, it, node=None):
                 return val
     if isinstance(it, ZipIter):
         vals, stopped = [], 0
+        before = it.base.pos if it.base is not None else None
         for i in it.inners:
             try:
+                if isinstance(i, CountIter) and it.base is not None and not it.longest:
+                    # count() zipped with a table iterator: the value is a function of the table position
+                    # (all elements are consumed through this zip), so it survives the havoc of a loop contract
+                    done = (it.base.pos if it.inners.index(i) < it.inners.index(it.base) else before) - it.pos0
+                    vals.append(binop(interp, ast.Add(), i.cur, binop(interp, ast.Mult(), i.step, SInt(z3.simplify(done)), node), node))
+                    continue
                 vals.append(next_(interp, i, node))
             except PyExc as e:
                 if e.kind == 'StopIteration' and getattr(e, 'from_next', False):
@@ -256,11 +287,20 @@ def dict_concrete(interp, d):
 
 def to_seq(interp, v, kind, node=None):
     """list(v) / tuple(v)"""
+    if isinstance(v, Instance) and '_tuple' in v.attrs and not v.cls.find('__iter__'):
+        return to_seq(interp, v.attrs['_tuple'], kind, node)
     if isinstance(v, Seq):
         if kind == 'tuple' and v.kind == 'tuple':
             return v
         return Seq(v.arr, v.len, kind, 'Fresh')
     if isinstance(v, SCell):
+        if v.untrusted:
+            # a value produced by a user callback: it may not be iterable, or may fail while being iterated
+            bad = z3.Function('iter_raises', V, B)(v.t)
+            if interp.ctx.branch(bad, 'iterating a callback result fails'):
+                e = PyExc('UserError', SCell(z3.Function('iter_exc', V, V)(v.t)), interp.where(node) if node is not None else None)
+                e.iterfail = v.t
+                raise e
         s = view_seq(v)
         return Seq(s.arr, s.len, kind, 'Fresh')
     if isinstance(v, tuple):
@@ -276,19 +316,142 @@ def to_seq(interp, v, kind, node=None):
     raise Unsupported('%s(%r) at %s' % (kind, v, interp.where(node) if node is not None else '?'))
 
 
-def drain(interp, it, kind, node=None):
-    """list(it) for an iterator of symbolic length: result = remaining elements (mapped pointwise)"""
+def sym_remaining(it):
+    """number of elements an iterator will still deliver (z3 Int) or None if infinite"""
     if isinstance(it, SrcIter):
-        n = it.n - it.pos
-        arr = smt.fresh_arr('drain')
-        j = smt.fresh_int('j')
+        return it.n - it.pos
+    if isinstance(it, CountIter):
+        return None
+    if isinstance(it, ListIter):
+        return z3.IntVal(len(it.items) - it.i)
+    if isinstance(it, MapIter):
+        return sym_remaining(it.inner)
+    if isinstance(it, ZipIter) and not it.longest:
+        ns = [n for n in (sym_remaining(i) for i in it.inners) if n is not None]
+        if len(ns) == 1:
+            return ns[0]
+    raise Unsupported('length of a lazy iterator %r' % (it,))
+
+
+def sym_element(interp, it, j):
+    """the (j+1)-th upcoming element of `it` for a generic j (no filter allowed)"""
+    if isinstance(it, SrcIter):
         if it.arr is None:
-            raise Unsupported('list(range) symbolic')
-        emit(z3.ForAll([j], z3.Implies(z3.And(0 <= j, j < n), z3.Select(arr, j) == z3.Select(it.arr, it.pos + j))))
+            return SInt(it.range_lo + it.pos + j)
+        return SCell(z3.Select(it.arr, it.pos + j))
+    if isinstance(it, CountIter):
+        return binop(interp, ast.Add(), it.cur, binop(interp, ast.Mult(), it.step, SInt(j), None), None)
+    if isinstance(it, ZipIter) and not it.longest:
+        return tuple(sym_element(interp, i, j) for i in it.inners)
+    if isinstance(it, MapIter):
+        keep, val = it.fn(sym_element(interp, it.inner, j))
+        if keep is not True:
+            raise Unsupported('filtered lazy iterator collected symbolically')
+        return val
+    raise Unsupported('generic element of %r' % (it,))
+
+
+def sym_exhaust(it):
+    if isinstance(it, SrcIter):
         it.pos = it.n
         it.exhausted_seen = True
+    elif isinstance(it, MapIter):
+        sym_exhaust(it.inner)
+    elif isinstance(it, ZipIter):
+        for i in it.inners:
+            if not isinstance(i, CountIter):
+                sym_exhaust(i)
+
+
+def drain(interp, it, kind, node=None):
+    """list(it) / tuple(it) for an iterator of symbolic length: result r, len r = remaining, r[j] = element j.
+    Element expressions may branch (merged into If-terms) and may raise: then the FIRST raising element's
+    exception escapes (fork)."""
+    ctx = interp.ctx
+    n = z3.simplify(sym_remaining(it))
+    if isinstance(it, SrcIter) and it.arr is not None:
+        arr = smt.fresh_arr('drain')
+        j = smt.fresh_int('j')
+        emit(z3.ForAll([j], z3.Implies(z3.And(0 <= j, j < n), z3.Select(arr, j) == z3.Select(it.arr, it.pos + j))))
+        sym_exhaust(it)
         return Seq(arr, n, kind, 'Fresh')
-    raise Unsupported('list() of a lazy symbolic iterator at %s' % (interp.where(node) if node is not None else '?'))
+    j = smt.fresh_int('cj')
+    paths = ite_paths(interp, lambda: sym_element(interp, it, j), [z3.And(0 <= j, j < n)])
+    raising = [(g, e) for g, v, e in paths if e is not None]
+    if raising:
+        rg = z3.Or([g for g, e in raising])
+        some = z3.Exists([j], z3.And(0 <= j, j < n, rg))
+        if ctx.branch(some, 'some element raises'):
+            j0 = smt.fresh_int('jfail')
+            ctx.assume(z3.And(0 <= j0, j0 < n, z3.substitute(rg, (j, j0))))
+            ctx.assume(z3.ForAll([j], z3.Implies(z3.And(0 <= j, j < j0), z3.Not(rg))))
+            for g, e in raising[:-1]:
+                if ctx.branch(z3.substitute(g, (j, j0)), 'which element path raises'):
+                    raise retarget(e, j, j0)
+            ctx.assume(z3.substitute(raising[-1][0], (j, j0)))
+            raise retarget(raising[-1][1], j, j0)
+        ctx.assume(z3.ForAll([j], z3.Implies(z3.And(0 <= j, j < n), z3.Not(rg))))
+    val = None
+    for g, v, e in reversed(paths):
+        if e is not None:
+            continue
+        vv = as_v(v)
+        val = vv if val is None else z3.If(g, vv, val)
+    if val is None:
+        ctx.assume(n <= 0)
+        return Seq(smt.fresh_arr('empty'), z3.IntVal(0), kind, 'Fresh')
+    arr = smt.fresh_arr('comp')
+    emit(z3.ForAll([j], z3.Implies(z3.And(0 <= j, j < n), z3.Select(arr, j) == val)))
+    sym_exhaust(it)
+    return Seq(arr, n, kind, 'Fresh')
+
+
+def retarget(e, j, j0):
+    """an exception raised by the generic element j, re-expressed for the concrete failing position j0"""
+    if isinstance(e.payload, SCell):
+        e.payload = SCell(z3.substitute(e.payload.t, (j, j0)))
+    e.fail_index = j0
+    return e
+
+
+def ite_paths(interp, thunk, hyps):
+    """all paths of a pure expression under extra hypotheses: [(guard, value, exception)]; global facts emitted on the
+    way (axiom instances not mentioning the bound index) are re-emitted for the caller"""
+    ctx = interp.ctx
+    saved = (ctx.decisions, ctx.taken, ctx.alternatives, ctx.facts)
+    results = []
+    work = [[]]
+    base_facts = list(ctx.facts) + list(hyps)
+    try:
+        while work:
+            dec = work.pop()
+            ctx.decisions, ctx.taken, ctx.alternatives = list(dec), [], []
+            ctx.facts = list(base_facts)
+            nfacts = len(ctx.facts)
+            exc = v = None
+            try:
+                v = thunk()
+            except PathEnd:
+                work.extend(ctx.alternatives)
+                continue
+            except PyExc as e:
+                exc = e
+            results.append((ctx.facts[nfacts:], v, exc))
+            work.extend(ctx.alternatives)
+            if len(results) > 64:
+                raise Unsupported('element expression has too many paths')
+    finally:
+        ctx.decisions, ctx.taken, ctx.alternatives, ctx.facts = saved
+    out = []
+    for conds, v, exc in results:
+        guards = []
+        for c in conds:
+            if is_axiom_instance(c):
+                emit(c)
+            else:
+                guards.append(c)
+        out.append((z3.And(guards) if guards else z3.BoolVal(True), v, exc))
+    return out
 
 
 def index_term(interp, s, idx, node, what='index'):
@@ -449,8 +612,7 @@ def list_extend(interp, lst, other, node=None):
         if isinstance(other, (tuple, PyList, ListIter, GenObj)) or (isinstance(other, (MapIter, ZipIter)) and is_concrete_iter(other)):
             lst.items.extend(iter_concrete(interp, other))
             return
-        # becomes symbolic: convert in place is impossible for a PyList -> caller must hold a Seq
-        raise Unsupported('extend of a concrete list by a symbolic sequence at %s (engine: use Seq)' % (interp.where(node) if node else '?'))
+        lst.go_symbolic()      # the list becomes symbolic in place (identity and aliases kept)
     if isinstance(lst, Seq):
         if isinstance(other, (SrcIter,)):
             other = drain(interp, other, 'list', node)
@@ -470,6 +632,8 @@ def list_insert(interp, lst, idx, v, node=None):
     if isinstance(lst, PyList) and isinstance(idx, int):
         lst.items.insert(idx, v)
         return
+    if isinstance(lst, PyList):
+        lst.go_symbolic()
     if isinstance(lst, Seq):
         i = to_int(idx)
         pos = clamp(i, lst.len)
@@ -731,6 +895,8 @@ def binop(interp, op, a, b, node=None):
             return PyList(a.items + b.items, a.kind)
         if isinstance(a, (Seq, tuple, PyList)) and isinstance(b, (Seq, tuple, PyList)):
             return concat(interp, a, b, kind=('tuple' if isinstance(a, tuple) else a.kind))
+        if (isinstance(a, SCell) and isinstance(b, (Seq, tuple, PyList))) or (isinstance(b, SCell) and isinstance(a, (Seq, tuple, PyList))):
+            return concat(interp, a, b, kind='src')      # a source row (list or tuple) concatenated with a sequence
         if isinstance(a, str) or isinstance(b, str):
             return SCell(smt.fresh_v('strcat'))
     if t is ast.Mult:
@@ -1057,29 +1223,13 @@ def comprehension(interp, node, gen, src, env, kind):
 
 
 def symbolic_map(interp, it, gen, node, env, keep_and_val, kind):
-    """[elt for x in seq]  with len(seq) symbolic: result r with len r = remaining, r[j] = elt(seq[pos+j]).
-    The element expression is executed for a generic j; it must not branch on j-dependent state in a way that
-    raises (a raising path makes the whole comprehension raise: forked)."""
+    """[elt for x in seq] with len(seq) symbolic: pointwise through drain()"""
     if gen.ifs:
         hook = getattr(interp, 'filter_hook', None)
         if hook is not None:
             return hook(interp, it, gen, node, env)
         raise Unsupported('filtered comprehension over a symbolic sequence at %s' % interp.where(node))
-    base = it if isinstance(it, SrcIter) else None
-    if base is None:
-        raise Unsupported('comprehension over lazy symbolic iterator at %s' % interp.where(node))
-    n = z3.simplify(base.n - base.pos)
-    j = smt.fresh_int('cj')
-    ctx = interp.ctx
-    # generic element: evaluate under the hypothesis 0 <= j < n; branching inside elt makes the result
-    # path-dependent on j, which a single pointwise axiom cannot express -> we require a branch-free elt and build
-    # an If-term instead by evaluating under "ite mode"
-    x = SCell(z3.Select(base.arr, base.pos + j)) if base.arr is not None else SInt(base.range_lo + base.pos + j)
-    val = ite_eval(interp, lambda: keep_and_val(x)[1], [z3.And(0 <= j, j < n)])
-    arr = smt.fresh_arr('comp')
-    emit(z3.ForAll([j], z3.Implies(z3.And(0 <= j, j < n), z3.Select(arr, j) == as_v(val))))
-    base.pos = base.n
-    return Seq(arr, n, kind, 'Fresh')
+    return drain(interp, MapIter(it, keep_and_val), kind, node)
 
 
 def ite_eval(interp, thunk, hyps):
@@ -1318,26 +1468,35 @@ def call_opaque(interp, fn, args, kwargs, node):
     raise Unsupported('call of external %r at %s' % (fn, interp.where(node) if node is not None else '?'))
 
 
+def ucall_terms(name, vs):
+    """(result, raises, exception object) terms of the uninterpreted callback `name` applied to V-terms vs"""
+    n = len(vs)
+    f = z3.Function('ucall_%s_%d' % (name, n), *([V] * n + [V]))
+    rs = z3.Function('ucall_%s_%d_raises' % (name, n), *([V] * n + [B]))
+    ex = z3.Function('ucall_%s_%d_exc' % (name, n), *([V] * n + [V]))
+    return f(*vs), rs(*vs), ex(*vs)
+
+
 def call_ucall(interp, fn, args, kwargs, node):
     """user callback: uninterpreted function of its (lifted) arguments; deterministic; may raise"""
     vs = [as_v(a if not isinstance(a, Instance) else instance_value(interp, a)) for a in args]
     if not vs:
         vs = [as_v(0)]
-    f = z3.Function('ucall_%s_%d' % (fn.name, len(vs)), *([V] * len(vs) + [V]))
-    rs = z3.Function('ucall_%s_%d_raises' % (fn.name, len(vs)), *([V] * len(vs) + [B]))
+    r, raises, exc = ucall_terms(fn.name, vs)
     fn.calls.append(vs)
-    if fn.may_raise and interp.ctx.branch(rs(*vs), 'callback %s raises' % fn.name):
-        e = PyExc('UserError', SCell(z3.Function('ucall_%s_exc' % fn.name, *([V] * len(vs) + [V]))(*vs)), interp.where(node) if node is not None else None)
+    if fn.may_raise and interp.ctx.branch(raises, 'callback %s raises' % fn.name):
+        e = PyExc('UserError', SCell(exc), interp.where(node) if node is not None else None)
         e.ucall = (fn.name, vs)
         raise e
-    r = f(*vs)
     if fn.result == 'bool':
         return SBool(smt.truthy(r))
-    return SCell(r)
+    return SCell(r, untrusted=True)
 
 
 def instance_value(interp, inst):
     """V-term standing for an interpreted instance handed to a callback (Record -> its row)"""
+    if '_tuple' in inst.attrs:
+        return inst.attrs['_tuple']
     if 'row' in inst.attrs:
         return inst.attrs['row']
     if '_v' in inst.attrs:
@@ -1347,8 +1506,35 @@ def instance_value(interp, inst):
     return v
 
 
+def derives_from_tuple(cls):
+    stack = [cls]
+    while stack:
+        c = stack.pop()
+        for b in getattr(c, 'bases', []):
+            if isinstance(b, TypeObj) and b.name == 'tuple':
+                return True
+            if isinstance(b, ClassObj):
+                stack.append(b)
+    return False
+
+
 def super_call(interp, node, env):
-    raise Unsupported('super() at %s' % interp.where(node))
+    """super(Cls, self).method(args) for tuple subclasses: the built-in tuple method on the underlying contents"""
+    sup = node.func.value
+    selfobj = interp.eval(sup.args[1], env) if len(sup.args) == 2 else env.lookup('self')
+    meth = node.func.attr
+    args = [interp.eval(a, env) for a in node.args]
+    if isinstance(selfobj, Instance) and '_tuple' in selfobj.attrs:
+        under = selfobj.attrs['_tuple']
+        if meth == '__getitem__':
+            return getitem(interp, under, args[0], node)
+        if meth == '__len__':
+            return _len(interp, [under], {}, node)
+        if meth == '__iter__':
+            return get_iter(interp, under, node)
+    if meth == '__new__':
+        return selfobj
+    raise Unsupported('super().%s at %s' % (meth, interp.where(node)))
 
 
 def with_stmt(interp, node, env):
@@ -1379,6 +1565,8 @@ def _len(interp, args, kw, node):
         f = v.cls.find('__len__')
         if f:
             return interp.call(BoundMethod(f[0], v), [], {})
+        if '_tuple' in v.attrs:
+            return _len(interp, [v.attrs['_tuple']], kw, node)
     raise Unsupported('len(%r) at %s' % (v, interp.where(node)))
 
 
@@ -1543,6 +1731,15 @@ def _partial(interp, args, kw, node):
 
 @_b('itemgetter')
 def _itemgetter(interp, args, kw, node):
+    if len(args) == 1 and isinstance(args[0], StarSeq):
+        sq = args[0].seq
+        if interp.ctx.branch(sq.len == 0, 'itemgetter()'):
+            interp.raise_('TypeError', 'itemgetter expected 1 argument, got 0', node)
+        if interp.ctx.branch(sq.len == 1, 'itemgetter(single)'):
+            return ItemGetter([SInt(smt.ival(z3.Select(sq.arr, 0)))])
+        return ItemGetter(sq)
+    if not args:
+        interp.raise_('TypeError', 'itemgetter expected 1 argument, got 0', node)
     return ItemGetter(list(args))
 
 
